@@ -394,6 +394,20 @@ pub proof fn lemma_total_model_satisfies(cs: Seq<Vec<Literal>>, m: PartialModel)
 }
 
 impl SATSolver {
+// the two one-line readers of the top frame
+//%% extract src/repr/unit_prop.rs :: impl SATSolver :: fn is_set
+//%% @ret r
+//%% @spec
+        requires self.state_stack@.len() >= 1,
+        ensures r == (self.top().val(var) is Some),
+//%% end
+//%% extract src/repr/unit_prop.rs :: impl SATSolver :: fn cur_hash
+//%% @ret r
+//%% @spec
+        requires self.state_stack@.len() >= 1,
+        ensures r == self.state_stack@[self.state_stack@.len() - 1].hash,
+//%% end
+
 //%% extract src/repr/unit_prop.rs :: impl SATSolver :: fn is_sat
 //%% @ret r
 //%% @spec
